@@ -56,7 +56,7 @@ def main():
         kf["findings"] += d.get("findings", [])
         for e in d.get("fixed", []):
             e = dict(e)
-            c = applied.get(e.get("patch", ""), applied.get(e.get("id", "")))
+            c = applied.get(e.get("patch") or e.get("fix") or "", applied.get(e.get("id", "")))
             if c:
                 e["commit"] = c
                 e["line"] = "fixed: property=%s %s %s" % (e.get("property"), c, e.get("what", ""))
